@@ -301,7 +301,16 @@ func (pathTargets *pathSubqueryMetadata) extractKeys(node interface{}, path []Pa
 		// the subquery will be added into the final result
 		pathTargets.results = append(pathTargets.results, obj)
 		// Keys from the "_federation" field func are passed to
-		// the subquery
+		// the subquery. They are copied: when a client selects _federation
+		// itself, sibling sub-plans stitch their results into this very map
+		// while the sub-query is being built from it.
+		if keyFields, ok := key.(map[string]interface{}); ok {
+			keyCopy := make(map[string]interface{}, len(keyFields))
+			for k, v := range keyFields {
+				keyCopy[k] = v
+			}
+			key = keyCopy
+		}
 		pathTargets.keys = append(pathTargets.keys, key)
 		return nil
 	}
